@@ -20,7 +20,8 @@ LEVEL_TEXT = ("Lean 4 theorems, for every lattice size, every site and every fie
               "coefficients), over a hand-written executable model of the Jordan-Wigner encoder (strings per ladder operator, "
               "product expansion, 2^-k weights, sign refactoring, merge-on-insert, pruning) built on the Pauli-string model "
               "whose phase tables and product formula are regenerated from the source on every run; tied to the code by "
-              "differential runs with exact comparison of the (string, weight) sets.")
+              "differential runs with exact comparison of the (string, weight) sets and of the reference ladder matrices "
+              "(model entries vs op.as_matrix() of every single ladder operator).")
 ASSUMPTIONS = ["weights are compared over exact dyadic rationals: the generator keeps every coefficient sum exactly representable "
                "(checked per case by `exact_safe`), so `0.5**k * coeff`, `sign * weight` and `weight += w` are exact in binary64",
                "the order in which np.nditer visits a coefficient array (C order for C-contiguous arrays, memory order otherwise) is "
